@@ -8,7 +8,7 @@ use mipidsi::TestImage;
 use crate::ev::{par_cases, Acc};
 use crate::json::J;
 use crate::ops::Op;
-use crate::rig::{guarded, CallResult, DispCfg, ModelId, Tr, BUILTIN};
+use crate::rig::{guarded, CallResult, DispCfg, ModelId, Tr};
 use crate::session::{Opened, Session};
 use crate::spec::Ori;
 use crate::Args;
@@ -171,21 +171,133 @@ pub fn judge(w: usize, h: usize, at: &dyn Fn(usize, usize) -> Cl) -> Result<(), 
     Ok(())
 }
 
-fn one<C: RgbColor>(w: u32, h: u32) -> Result<(Result<(), (String, String)>, u64), CallResult> {
+fn one<C: RgbColor + Default>(w: u32, h: u32) -> Result<(Result<(), (String, String)>, u64), CallResult> {
     one_at::<C>(0, 0, w, h)
 }
 
-fn one_at<C: RgbColor>(ox: i32, oy: i32, w: u32, h: u32) -> Result<(Result<(), (String, String)>, u64), CallResult> {
+fn one_at<C: RgbColor + Default>(ox: i32, oy: i32, w: u32, h: u32) -> Result<(Result<(), (String, String)>, u64), CallResult> {
     let mut fb = Fb::<C>::at(ox, oy, w, h);
     guarded(|| {
-        let _ = TestImage::<C>::new().draw(&mut fb);
+        // both public constructors
+        let img = if (w + h) % 2 == 0 { TestImage::<C>::new() } else { TestImage::<C>::default() };
+        let _ = img.draw(&mut fb);
     })?;
     let r = judge(w as usize, h as usize, &|x, y| fb.px[y * w as usize + x]);
     Ok((r, fb.outside_offers))
 }
 
+/// A target far larger than any memory: records the rectangle fills, counts everything else.
+struct Vast<C> {
+    w: u32,
+    h: u32,
+    fills: Vec<(i64, i64, i64, i64, Cl)>,
+    other_pixels: u64,
+    _p: std::marker::PhantomData<C>,
+}
+impl<C: RgbColor> Dimensions for Vast<C> {
+    fn bounding_box(&self) -> Rectangle {
+        Rectangle::new(Point::zero(), Size::new(self.w, self.h))
+    }
+}
+impl<C: RgbColor> DrawTarget for Vast<C> {
+    type Color = C;
+    type Error = core::convert::Infallible;
+    fn draw_iter<I: IntoIterator<Item = Pixel<C>>>(&mut self, pixels: I) -> Result<(), Self::Error> {
+        for Pixel(p, c) in pixels.into_iter().take(1 << 22) {
+            self.fills.push((p.x as i64, p.y as i64, p.x as i64, p.y as i64, classify(c)));
+            self.other_pixels += 1;
+            if self.fills.len() > 1 << 16 {
+                break;
+            }
+        }
+        Ok(())
+    }
+    fn fill_contiguous<I: IntoIterator<Item = C>>(&mut self, area: &Rectangle, colors: I) -> Result<(), Self::Error> {
+        // only the beginning of the stream is pulled (a target may ignore surplus colours): the
+        // first row and the first two pixels of the second, kept at a few probe columns
+        let w = area.size.width as u64;
+        let (ax, ay) = (area.top_left.x as i64, area.top_left.y as i64);
+        let want = if w <= 1 << 23 { w + 2 } else { 2 };
+        let probes = [0, 1, w / 2, w.saturating_sub(1), w, w + 1];
+        for (k, c) in colors.into_iter().take(want as usize).enumerate() {
+            let k = k as u64;
+            self.other_pixels += 1;
+            if probes.contains(&k) && w > 0 {
+                let (x, y) = (ax + (k % w) as i64, ay + (k / w) as i64);
+                self.fills.push((x, y, x, y, classify(c)));
+            }
+        }
+        Ok(())
+    }
+    fn fill_solid(&mut self, area: &Rectangle, color: C) -> Result<(), Self::Error> {
+        if let Some(br) = area.bottom_right() {
+            self.fills.push((area.top_left.x as i64, area.top_left.y as i64, br.x as i64, br.y as i64, classify(color)));
+        }
+        Ok(())
+    }
+}
+
+/// Targets of 2^32 pixels and more: no panic, and the picture (evaluated at probe points from
+/// the recorded fills, last one wins) has the white frame and red | green | blue.
+fn one_vast<C: RgbColor>(w: u32, h: u32) -> Result<Result<(), (String, String)>, CallResult> {
+    let mut t = Vast::<C> { w, h, fills: Vec::new(), other_pixels: 0, _p: std::marker::PhantomData };
+    guarded(|| {
+        let _ = TestImage::<C>::new().draw(&mut t);
+    })?;
+    let at = |x: i64, y: i64| t.fills.iter().rev().find(|f| f.0 <= x && x <= f.2 && f.1 <= y && y <= f.3).map(|f| f.4).unwrap_or(Cl::Unpainted);
+    let (w, h) = (w as i64, h as i64);
+    // what the probe can see of the frame: the top row and the start of the second one
+    let frame: &[(i64, i64)] = if w <= 1 << 23 { &[(0, 0), (1, 0), (w / 2, 0), (w - 1, 0), (0, 1)] } else { &[(0, 0), (1, 0)] };
+    for &(x, y) in frame {
+        if at(x, y) != Cl::White {
+            return Ok(Err(("frame".into(), format!("frame pixel ({},{}) is {:?}", x, y, at(x, y)))));
+        }
+    }
+    if w <= 1 << 23 && matches!(at(1, 1), Cl::White | Cl::Unpainted) {
+        return Ok(Err(("frame".into(), format!("pixel (1,1) just inside the frame is {:?}", at(1, 1)))));
+    }
+    for (x, y) in [(w / 2, h / 2), (w / 3, 2 * h / 3), (w - 7, h - 7)] {
+        if at(x, y) == Cl::Unpainted {
+            return Ok(Err(("unpainted".into(), format!("pixel ({},{}) was never painted", x, y))));
+        }
+    }
+    let row = 3 * h / 4;
+    // the middle of the left, centre and right sixth-pairs of the area inside the 5-pixel margin
+    let inner = w - 10;
+    let (xl, xm, xr) = (5 + inner / 6, w / 2, w - 6 - inner / 6);
+    let (l, m, r) = (at(xl, row), at(xm, row), at(xr, row));
+    if (l, m, r) != (Cl::Red, Cl::Green, Cl::Blue) {
+        return Ok(Err(("colour-bars".into(), format!("at x = {}, {}, {} of row {}: {:?} {:?} {:?}", xl, xm, xr, row, l, m, r))));
+    }
+    Ok(Ok(()))
+}
+
 pub fn c19(args: &Args) -> Acc {
     let mut total = Acc::new();
+    if args.want_stage("vast") {
+        // (a rectangle wider or higher than i32::MAX is not a valid embedded-graphics rectangle)
+        let sizes: [(u32, u32); 8] = [(65536, 65536), (1 << 20, 1 << 12), (32, 1 << 27), (100_000, 50_000), (i32::MAX as u32, 40), (40, i32::MAX as u32), (1 << 30, 1 << 30), (i32::MAX as u32, i32::MAX as u32)];
+        let acc = par_cases(sizes.len() as u64 * 3, args.threads, args.case, |idx, a| {
+            let (w, h) = sizes[(idx / 3) as usize];
+            let ct = idx % 3;
+            let r = match ct {
+                0 => one_vast::<Rgb565>(w, h),
+                1 => one_vast::<Rgb666>(w, h),
+                _ => one_vast::<Rgb888>(w, h),
+            };
+            let name = ["Rgb565", "Rgb666", "Rgb888"][ct as usize];
+            let case = || J::obj().with("width", w).with("height", h).with("colour_type", name);
+            a.case(&format!("{}x{}/{}", w, h, name), true);
+            a.count("targets_drawn", 1);
+            a.count("targets_with_2^32_pixels_or_more", 1);
+            match r {
+                Err(c) => a.violate("vast", idx, "panic", format!("{:?}", c), case()),
+                Ok(Err((sig, d))) => a.violate("vast", idx, format!("vast/{}", sig), d, case()),
+                Ok(Ok(())) => a.count("pictures_judged_at_probe_points", 1),
+            }
+        });
+        total.merge(acc);
+    }
     if args.want_stage("sizes") {
         let maxs: u64 = 97;
         let n = maxs * maxs * 3;
@@ -261,7 +373,7 @@ pub fn c19(args: &Args) -> Acc {
     // through a real Display: every model, full size, all 8 orientations; the picture is
     // read back from controller memory through the inverse geometric mapping
     if args.want_stage("display") {
-        let mut models: Vec<ModelId> = BUILTIN.to_vec();
+        let mut models: Vec<ModelId> = crate::rig::builtin();
         models.extend([ModelId::Ext64x48, ModelId::Ext256x256, ModelId::Ext240x320c666]);
         let n = models.len() as u64 * 8;
         let acc = par_cases(n, args.threads, args.case, |idx, a| {
